@@ -107,6 +107,47 @@ fn check_decode(r: &mut Report, f: &RefFrame, wire: &[u8], plan: &Plan) {
     }
 }
 
+/// Several frames back to back in ONE stream, decoded one after the other from the same reader: each decode returns
+/// its frame and leaves the following frames' bytes in the stream (a decoder must consume exactly its own frame).
+fn check_sequence(r: &mut Report, frames: &[RefFrame], plan: &Plan) {
+    let mut wire = Vec::new();
+    let mut ends = Vec::new();
+    for f in frames {
+        wire.extend(f.encode());
+        ends.push(wire.len());
+    }
+    r.eval();
+    r.count("frame_sequences", 1);
+    let mut rd = ScriptedReader::new(&wire, plan.clone());
+    let rep = vec!["c10".to_string(), "--sequence".into(), hex(&wire[..wire.len().min(600)]), "--plan".into(), plan_to_string(plan)];
+    for (i, f) in frames.iter().enumerate() {
+        let got = catch_unwind(AssertUnwindSafe(|| decode(&mut rd)));
+        let ex = |why: &str| J::obj(vec![("frames_in_stream", J::u(frames.len() as u64)), ("index", J::u(i as u64)), ("frame", frame_json(f)), ("read_plan", J::s(plan_to_string(plan))), ("why", J::s(why))]);
+        match got {
+            Err(p) => {
+                r.violation("C10/decode:panic", format!("decoder panicked on frame #{} of a stream of {}: {}", i, frames.len(), panic_msg(&*p)), ex("panic"), rep);
+                return;
+            }
+            Ok(Err(e)) => {
+                r.violation("C10/sequence:frame-lost", format!("frame #{} of {} back-to-back frames in one stream is rejected ({:?}) under plan {}: the preceding decode did not leave its bytes in the stream", i, frames.len(), e, plan_to_string(plan)), ex("error"), rep);
+                return;
+            }
+            Ok(Ok(p)) => {
+                if p.payload != f.payload || p.opcode != f.opcode || p.fin != f.fin || p.mask != f.mask.is_some() {
+                    r.violation("C10/sequence:frame-garbled", format!("frame #{} of {} back-to-back frames decodes to something else under plan {}", i, frames.len(), plan_to_string(plan)), ex("differs"), rep);
+                    return;
+                }
+                if rd.consumed() > ends[i] && i + 1 < frames.len() {
+                    // bytes of the next frame were taken from the stream and are gone (nothing hands them back)
+                    r.violation("C10/sequence:read-ahead-discarded", format!("decoding frame #{} consumed {} bytes of the stream although the frame ends at byte {}: the next frame's first bytes are lost", i, rd.consumed(), ends[i]), ex("over-consumption"), rep);
+                    return;
+                }
+            }
+        }
+    }
+    r.count("frame_sequences_intact", 1);
+}
+
 fn gen_payload(rng: &mut Rng, n: usize) -> Vec<u8> {
     match rng.below(3) {
         0 => rng.bytes(n),
@@ -289,6 +330,22 @@ pub fn main(args: &Args) {
                 check_decode(&mut r, &f, &wire, &p);
             }
         }
+        // (2b) sequences of 2..4 short frames in one stream, under whole / bytewise / every split point
+        for q in 0..(if thorough { 400 } else { 60 }) / nsh + 1 {
+            let n = rng.urange(2, 4);
+            let frames: Vec<RefFrame> = (0..n)
+                .map(|_| {
+                    let len = *rng.pick(&[0usize, 1, 2, 5, 20, 125, 126, 300]);
+                    let mask = if rng.chance(2, 3) { let k = rng.bytes(4); Some([k[0], k[1], k[2], k[3]]) } else { None };
+                    RefFrame { fin: rng.chance(1, 2), rsv: [false; 3], opcode: *rng.pick(&OPCODES), mask, payload: gen_payload(&mut rng, len) }
+                })
+                .collect();
+            let total: usize = frames.iter().map(|f| f.encode().len()).sum();
+            r.nontrivial(fnv(&frames.iter().flat_map(|f| f.encode()).collect::<Vec<u8>>()) ^ 0x5e9 ^ q as u64);
+            for p in plans_for(total, &mut rng, 200, 8, 3) {
+                check_sequence(&mut r, &frames, &p);
+            }
+        }
         // (3) all 256 x 256 headers, truncated and complete
         for b0 in 0..=255u8 {
             if (b0 as usize) % nsh != shard {
@@ -341,5 +398,5 @@ pub fn main(args: &Args) {
         r
     });
     let total = Report::merge_all(reports);
-    total.write(out, "all frames over FIN x RSV1-3 (8) x 6 opcodes x mask {off, key 0, key ff, random key} x payload lengths {0,1,124,125,126,127,128,65534,65535,65536,65537} with generated payloads: serialised bytes vs the reference RFC 6455 encoder, then decoded under every split point (<= 300 B) or 64 random split points (6 for >60 KB frames in quick) + whole + bytewise + 3 multi-split plans; random frames with lengths to 100 KiB (1 MiB thorough); all 256 x 256 two-byte headers with complete and one-byte-short remainders; truncated frames claiming >= 2^63 payload bytes; Message::to_frame. distinct = distinct wire prefixes/header cases; all counted cases are non-trivial (each exercises header + length + mask logic)", Some(false), &["64-bit length claims beyond the supplied bytes but below 2^63 (which a decoder could try to allocate, aborting the harness process) are C03's subject, run there in isolated processes; claims >= 2^63 are checked here", "reference: hvcommon::wsref (RFC 6455 5.2 encoder/decoder written independently)"]);
+    total.write(out, "all frames over FIN x RSV1-3 (8) x 6 opcodes x mask {off, key 0, key ff, random key} x payload lengths {0,1,124,125,126,127,128,65534,65535,65536,65537} with generated payloads: serialised bytes vs the reference RFC 6455 encoder, then decoded under every split point (<= 300 B) or 64 random split points (6 for >60 KB frames in quick) + whole + bytewise + 3 multi-split plans; random frames with lengths to 100 KiB (1 MiB thorough); sequences of 2..4 frames in one stream decoded one after the other (exact consumption); all 256 x 256 two-byte headers with complete and one-byte-short remainders; truncated frames claiming >= 2^63 payload bytes; Message::to_frame. distinct = distinct wire prefixes/header cases; all counted cases are non-trivial (each exercises header + length + mask logic)", Some(false), &["64-bit length claims beyond the supplied bytes but below 2^63 (which a decoder could try to allocate, aborting the harness process) are C03's subject, run there in isolated processes; claims >= 2^63 are checked here", "reference: hvcommon::wsref (RFC 6455 5.2 encoder/decoder written independently)"]);
 }
